@@ -330,6 +330,8 @@ pub struct ScriptSub {
     /// the allocator (per-thread LIFO free lists) hands the address of a freed subscriber to the
     /// next subscriber created on that thread: identity-by-address mistakes become reachable
     pub pad: SubPad,
+    /// panic inside on_notify for this action id (a callback that does not return normally)
+    pub panic_on: Option<u32>,
 }
 
 #[derive(Default)]
@@ -337,7 +339,7 @@ pub struct SubPad([u64; 29]);
 
 impl ScriptSub {
     pub fn new(id: u32) -> ScriptSub {
-        ScriptSub { id, gate: None, read_from: None, forward_to: None, pad: SubPad::default() }
+        ScriptSub { id, gate: None, read_from: None, forward_to: None, pad: SubPad::default(), panic_on: None }
     }
 }
 
@@ -372,6 +374,9 @@ impl Subscriber<St, Act> for ScriptSub {
             if let Some(s) = w.upgrade() {
                 dispatch(&s, Act::new(action.id + off));
             }
+        }
+        if self.panic_on == Some(action.id) {
+            panic!("scripted subscriber panic");
         }
         if let Some(g) = self.gate {
             g.pass();
